@@ -5,12 +5,14 @@ The first token of each line selects the sub-protocol.
 import Dos.StoreDriver
 import Dos.StreamDriver
 import Dos.MergeDriver
+import Dos.MultiDriver
 
 open Dos
 
 structure All where
   store : StoreDriver.DState := {}
   stream : StreamDriver.DState := {}
+  multi : MultiDriver.DState := {}
 
 def stepAll (a : All) (line : String) : All × String :=
   let l := line.trimAscii.toString
@@ -24,6 +26,9 @@ def stepAll (a : All) (line : String) : All × String :=
     let (d, out) := StreamDriver.stepLine a.stream (l.drop 7).toString
     ({ a with stream := d }, out)
   else if l.startsWith "merge " then (a, MergeDriver.stepLine (l.drop 6).toString)
+  else if l.startsWith "multi " then
+    let (d, out) := MultiDriver.stepLine a.multi (l.drop 6).toString
+    ({ a with multi := d }, out)
   else if l == "reset" then ({}, "ok")
   else (a, "bad-op unknown-protocol")
 
